@@ -121,7 +121,7 @@ func c11RunRT(r *vlib.Run, ct *cgenType, devs []cgenDev, v reflect.Value, hsm bo
 	if f == nil {
 		// second encode must give the same bytes (same encoder instance reused is the pool section)
 		enc2, _ := use.Enc(v.Addr())
-		if !bytes.Equal(enc, enc2) && !(ct.T == cgenTASO) {
+		if !bytes.Equal(enc, enc2) {
 			f = &c11Fail{"nondeterministic-encoding", "repeat", fmt.Sprintf("two encodings of the same value differ: %s vs %s", c11Hex(enc), c11Hex(enc2))}
 		}
 	}
